@@ -3,6 +3,7 @@ re-check of Props/<id>.v + correspondence (real spydrnet vs extracted Coq model,
 queries, canonical tuples compared) + independent oracles on the implementation (recursive path
 enumeration; union-find elaboration) + flyweight identity (implementation only) + corpus +
 shrinking + search for a failing input + evidence."""
+import re
 import json, os, sys, time, collections, random, subprocess, signal
 sys.path.insert(0, os.path.dirname(os.path.abspath(__file__)))
 import common
@@ -503,7 +504,8 @@ def known_match(known, sig, source=None):
             continue
         sigs = k.get('signature')
         sigs = sigs if isinstance(sigs, list) else [sigs]
-        if sig in sigs and (k.get('only_source') is None or k.get('only_source') == source):
+        hit = sig in sigs or (k.get('signature_regex') is not None and re.fullmatch(k['signature_regex'], sig) is not None)
+        if hit and (k.get('only_source') is None or k.get('only_source') == source):
             return k
     return None
 
